@@ -48,6 +48,7 @@ type rawClient struct {
 	readErr error
 	eofAt   time.Duration
 	// abandoned: the client reset its connection (crashed peer); nothing can be delivered to it
+	halfClosed  bool // the client sent FIN after its last request: the server closes once it has answered
 	abandoned   bool
 	abandonedAt time.Duration
 }
@@ -137,6 +138,7 @@ func (s *S) Run(c *scen.Ctx) {
 			// this client dies (connection reset) some time after sending, possibly with handlers still running for it
 			abandonAfter = time.Duration(simrt.Draw(600, "c12.abandonat")) * time.Millisecond
 		}
+		halfClose := simrt.Draw(4, "c12.halfclose") == 3
 		late := simrt.Draw(3, "c12.late") // requests sent after a pause (possibly during the drain window)
 		pause := time.Duration(simrt.Draw(700, "c12.pause")) * time.Millisecond
 		wg.Add(1)
@@ -169,6 +171,14 @@ func (s *S) Run(c *scen.Ctx) {
 				s.mu.Lock()
 				rc.sent = append(rc.sent, r)
 				s.mu.Unlock()
+			}
+			if abandonAfter < 0 && halfClose {
+				// nothing more to send: the client says so (FIN) and waits for its answers
+				c.Count("fault.client_half_close", 1)
+				s.mu.Lock()
+				rc.halfClosed = true
+				s.mu.Unlock()
+				rc.conn.CloseWrite()
 			}
 			if abandonAfter >= 0 {
 				simrt.Sleep(abandonAfter)
@@ -320,7 +330,7 @@ func (s *S) Check(c *scen.Ctx, res *simrt.Result) {
 			}
 		}
 		if serverClosed && !idleClosed {
-			if rc.connAt+time.Millisecond < s.sdStart && !gotNotice && !rc.abandoned && (pr.Client.ClosedAt < 0 || pr.Client.ClosedAt > s.sdStart) {
+			if rc.connAt+time.Millisecond < s.sdStart && !gotNotice && !rc.abandoned && !rc.halfClosed && (pr.Client.ClosedAt < 0 || pr.Client.ClosedAt > s.sdStart) {
 				c.Fail("C12", "no-reconnect-notice", poolKey, "client %d was connected (since %v) when Shutdown was called at %v and its connection was closed by the server at %v without the reconnect notification", rc.idx, rc.connAt, s.sdStart, pr.Server.ClosedAt)
 			}
 			if gotNotice {
@@ -380,7 +390,8 @@ func (s *S) Check(c *scen.Ctx, res *simrt.Result) {
 	if ctxExpiry < due {
 		due = ctxExpiry
 	}
-	if allClosed && s.sdReturn > due+5*time.Second {
+	_ = allClosed
+	if s.sdReturn > due+5*time.Second {
 		c.Fail("C12", "shutdown-late", poolKey, "Shutdown returned %v after the call; the last handler finished at %v and the context expired at %v: more than 5s after whichever came first", s.sdReturn-s.sdStart, lastAnswer, ctxExpiry)
 	}
 	if s.sdReturn > ctxExpiry+5*time.Second {
